@@ -106,6 +106,15 @@ var structFamilies = []familyGen{
 		b.Put("signature", refmodel.Fill("sg", uint64(t), refmodel.SigTable[t].SigLen))
 		return gen.Signed{Kind: "Signature", Bytes: b.B, Regions: b.R}, t
 	}},
+	{"String", sg(func(c *choose.Ctx) gen.Signed { // length-prefixed strings at both ends of the one-byte length
+		n := []int{3, 0, 1, 127, 128, 254, 255}[c.Pick("strlen", 7)]
+		var b refmodel.Buf
+		b.Span("str", func() {
+			b.Put("len", []byte{byte(n)})
+			b.Put("content", refmodel.Fill("str", uint64(n), n))
+		})
+		return gen.Signed{Kind: "String", Bytes: b.B, Regions: b.R}
+	})},
 	{"Fixed", sg(func(c *choose.Ctx) gen.Signed { // session key / tags / hash / date / integers: plain fixed-width fields
 		n := []int{32, 8, 4, 2, 1}[c.Pick("width", 5)]
 		var b refmodel.Buf
@@ -144,6 +153,8 @@ func parserFamiliesFor(fam string, aux int) []string {
 		return []string{"Lease2"}
 	case "Signature":
 		return []string{fmt.Sprintf("Signature[%d]", aux), fmt.Sprintf("Signature[%d]Exact", aux)}
+	case "String":
+		return []string{"I2PString", "I2PStringExact"}
 	case "Fixed":
 		return []string{"SessionKey", "SessionTag", "SessionTagExact", "ECIESSessionTag", "ECIESSessionTagExact", "Hash", "HashExact", "Date", "Integer[1]", "Integer[2]", "Integer[4]", "Integer[8]", "IntegerExact", "I2PString", "I2PStringExact"}
 	}
